@@ -543,21 +543,21 @@ impl<T: UciTx, H: Heuristic, M: MoveOrder> Search<T, H, M> {
         &mut self.state.transposition_table
     }
 
-    pub(crate) fn verif_tt_put(&mut self, key: ZobristHash, depth: usize, value: i32, node_type: u8) {
+    pub(crate) fn verif_tt_put(&mut self, key: ZobristHash, depth: usize, value: i32, node_type: u8, line_value: i32) {
         let node_type = match node_type {
             0 => Exact,
             1 => Lowerbound,
             _ => Upperbound,
         };
-        self.state.transposition_table.put(key, TtEntry::new(ValuedMove::leaf(value), key, depth, value, node_type));
+        self.state.transposition_table.put(key, TtEntry::new(ValuedMove::leaf(line_value), key, depth, value, node_type));
     }
 
-    pub(crate) fn verif_tt_get(&mut self, key: ZobristHash) -> Option<(usize, i32, u8)> {
+    pub(crate) fn verif_tt_get(&mut self, key: ZobristHash) -> Option<(usize, i32, u8, i32, ZobristHash)> {
         self.state.transposition_table.get(key).map(|e| (e.depth, e.value, match e.node_type {
             Exact => 0,
             Lowerbound => 1,
             Upperbound => 2,
-        }))
+        }, e.mv.value, e.zobrist_hash))
     }
 
     pub(crate) fn verif_quiescence(&mut self, bitboard: Bitboard) -> i32 {
